@@ -779,8 +779,54 @@ def rule_Q6(ctx) -> None:
         ctx.proved("Q6", name, mod.loc(fn), f"{n} parse calls, all on freshly constructed messages")
 
 
+def rule_Q8(ctx, rule: str = "Q8") -> None:
+    """whether a Timestamp field holds its default (the epoch) is a question about the instant: the emitters of the dict / JSON
+    form compare the value itself (or a time-zone conversion of it) with the epoch - never a copy whose tzinfo was replaced,
+    which compares the wall-clock reading and takes 1970-01-01T00:00+05:30 for the epoch"""
+    from ..fieldloop import VALUE, interp_for, type_binding
+    from ..sym import walk
+    mod = ctx.repo.mod(M_INIT)
+    for q in ("Message.to_dict", "Message.to_pydict"):
+        fn = mod.func(q)
+        ctx.analysed(q)
+        is_dt = ("call", N("isinstance"), (VALUE, N("datetime")), ())
+        paths = interp_for(mod, bindings=type_binding("message"), assume={is_dt: True}, fork_ifexp=True).run(fn)
+        ctx.count(len(paths))
+        zero_atoms = set()
+        for p in paths:
+            for k in p.valuation:
+                if any(t == N("DATETIME_ZERO") or (t[0] == "call" and dotted(t[1]) == "datetime_default_gen") or (t[0] == "c" and type(t[1]).__name__ == "datetime") for t in walk(k)):
+                    zero_atoms.add(k)
+        name = f"{q.split('.')[-1]}:epoch-test-compares-the-instant"
+        if not zero_atoms:
+            ctx.inconclusive(rule, name, "no comparison with the epoch found on the datetime paths", mod.loc(fn))
+            continue
+        bad = None
+        odd = None
+        for k in zero_atoms:
+            repl = [t for t in walk(k) if t[0] == "call" and t[1][0] == "a" and t[1][2] == "replace" and any(kw == "tzinfo" for kw, _ in t[3])]
+            if repl:
+                bad = bad or repl[0]
+                continue
+            sides = [x for x in k[2:]] if k[0] == "op" and k[1] in ("==", "is") else []
+            others = [x for x in sides if not (x == N("DATETIME_ZERO") or (x[0] == "call" and dotted(x[1]) == "datetime_default_gen"))]
+            def is_value(x):
+                # the field's value: read from the instance, or its default when the member is not the selected one
+                return x == VALUE or (x[0] == "call" and dotted(x[1]).endswith("_get_field_default"))
+            if not all(is_value(x) or (x[0] == "call" and x[1][0] == "a" and x[1][2] == "astimezone" and is_value(x[1][1])) for x in others) or not sides:
+                odd = odd or k
+        if bad:
+            ctx.refuted(rule, name, show(bad)[:80], mod.loc(fn), f"the default test of a Timestamp field compares {show(bad)} with the epoch: replacing tzinfo keeps the wall-clock reading and "
+                        "changes the instant, so an aware datetime whose local time reads 1970-01-01T00:00:00 is taken for the default and dropped from the dict / JSON form",
+                        "datetime(1970, 1, 1, tzinfo=timezone(timedelta(hours=5, minutes=30)))")
+        elif odd:
+            ctx.inconclusive(rule, name, f"epoch test {show(odd)[:100]} not recognised as a comparison of the value itself", mod.loc(fn))
+        else:
+            ctx.proved(rule, name, mod.loc(fn), f"{len(zero_atoms)} epoch test(s) on the value itself")
+
+
 def run(ctx) -> None:
-    for name, fn in (("Q7", rule_Q7), ("Q6", rule_Q6), ("Q1", rule_Q1), ("Q2", rule_Q2), ("Q3", rule_Q3), ("Q4", rule_Q4), ("Q5", rule_Q5), ("K3", jsonrules.rule_K3)):
+    for name, fn in (("Q8", rule_Q8), ("Q7", rule_Q7), ("Q6", rule_Q6), ("Q1", rule_Q1), ("Q2", rule_Q2), ("Q3", rule_Q3), ("Q4", rule_Q4), ("Q5", rule_Q5), ("K3", jsonrules.rule_K3)):
         ctx.rules_run.append(name)
         fn(ctx)
     ctx.assume("declared range table: timedelta.days in +-999999999, .seconds in [0, 86400), .microseconds/.microsecond in [0, 10**6), nanos in +-(10**9 - 1)")
